@@ -272,13 +272,15 @@ def check_panel(case):
     exact = 1.0 / w[np.abs(w) > 1e-14 * np.abs(w).max()]
     ctx = dict(case=case, dense=not case['sparse'])
     try:
-        vals, vecs = lb(K, KG, silent=True, sparse_solver=bool(case['sparse']), num_eigvalues=case['num'])
+        vals, vecs = call_lb(lb, K, KG, silent=True, sparse_solver=bool(case['sparse']), num_eigvalues=case['num'])
         judge(Kd, KGd, vals, vecs, act, fails, dict(ctx, api='analysis.lb'), exact=exact, ordered=True, num=case['num'])
-        p.lb(silent=True, sparse_solver=bool(case['sparse']))
+        call_lb(p.lb, silent=True, sparse_solver=bool(case['sparse']))
         judge(Kd, KGd, p.eigvals, p.eigvecs, act, fails, dict(ctx, api='Panel.lb'), exact=exact, ordered=True, num=case['num'])
         kk = min(len(vals), len(p.eigvals), case['num'], int((exact > 0).sum()))     # only finite positive multipliers are compared
         if kk and np.abs(np.real(vals[:kk]) - np.real(p.eigvals[:kk])).max() > 1e-6 * np.abs(vals[:kk]).max():
             fails.append(fail('Panel.lb and compmech.analysis.lb disagree on the same matrices', sig=None, case=case))
+    except NoAnswer:
+        return dict(fails=fails[:4], execs=6, transitions=6, nontrivial=0, no_answer=1)
     except Exception as e:
         fails.append(fail('buckling analysis raised', sig=None, case=case, error=repr(e)[:300]))
     return dict(fails=fails[:4], execs=2, transitions=2, nontrivial=1)
@@ -294,7 +296,9 @@ def check_shell(case):
     cc = rs.shell_of(cfg)
     cc.num_eigvalues = case['num']
     try:
-        cc.lb(combined_load_case=case['comb'] or None)
+        call_lb(cc.lb, combined_load_case=case['comb'] or None)
+    except NoAnswer:
+        return dict(fails=[], execs=3, transitions=3, nontrivial=0, no_answer=1)
     except Exception as e:
         return dict(fails=[fail('ConeCyl.lb raised', sig=None, case=case, error=repr(e)[:300])], nontrivial=1)
     pos = 3
